@@ -205,6 +205,54 @@ def sub_lifecycle_family():
     return out
 
 
+def _fam(sched, v, name, t_extra=14, insts=("I1",)):
+    tc = TIMINGS[v]
+    insts = list(insts)
+    rand = [0] * 6
+    ev, _ = annenv.run_schedule(sched, tc, insts, ann0=insts, rand=list(rand), t_extra=t_extra)
+    ev = [e for e in ev if not (e.get("k") == "in" and e.get("op") in ("arm_withdraw", "arm_raise"))]
+    cfg = annenv.mon_cfg(tc, insts, insts)
+    cfg["dsts"] = ["mc", "a1", "a2", "a3", "a4", "a5"]
+    return {"cfg": cfg, "ev": monpass.add_adv(ev), "sched": sched, "variant": v, "ann0": insts, "rand": rand,
+            "insts": insts, "t_extra": t_extra, "diag": {"variant": v, "family": name}}
+
+
+def shared_eventgroup_family():
+    """two subscribers (different SD addresses) hold the same eventgroup of one instance; one of them sends a StopSubscribe that
+    names no endpoint option (it matches none of ITS subscriptions, or its own option-less one): the other subscriber keeps its
+    subscription"""
+    out = []
+    sub = {"ty": "sub", "svc": "s1", "eg": 1, "ctr": 0, "opts": [], "acc": True}
+
+    def rx(t, j, src, sid, es):
+        return {"t": t, "j": j, "op": "rx", "src": src, "mc": False, "sid": sid, "rb": True, "uc": True, "es": es}
+    for v in ("A", "B0", "F"):
+        for ttl in (3, 16777215):
+            for own in (["e1"], []):
+                for other in (["e2"], ["e4"], []):
+                    sched = [{"t": 0, "j": 0, "op": "ann_start"},
+                             rx(2, 0, "a1", 1, [dict(sub, eps=own, ttl=ttl)]), rx(2, 1, "a2", 1, [dict(sub, eps=other, ttl=ttl)]),
+                             rx(3, 0, "a1", 2, [dict(sub, eps=[], ttl=0)]),
+                             rx(4, 0, "a2", 2, [dict(sub, eps=other, ttl=ttl)])]
+                    out.append(_fam(sched, v, "StopSubscribe without endpoint option, eventgroup shared with another subscriber (%s / %s)" % (own, other), t_extra=10))
+    return out
+
+
+def raising_listener_family():
+    """the application's client_unsubscribed fails while the instance that holds the subscription is being stopped (stop of the
+    announcer / of the instance / lost connection), in every phase of the offer life cycle: the offer is withdrawn all the same"""
+    out = []
+    sub = {"ty": "sub", "svc": "s1", "eg": 1, "ctr": 0, "eps": ["e1"], "opts": [], "acc": True, "ttl": 16777215}
+    for v in ("A", "B", "C", "D", "E", "F"):
+        for t_stop in (1, 2, 3, 4, 6):
+            for kind, stop in (("ann", {"op": "ann_stop"}), ("inst", {"op": "stop_announce", "inst": "I1"}), ("connlost", {"op": "connlost"})):
+                sched = [{"t": 0, "j": 0, "op": "arm_raise", "inst": "I1"}, {"t": 0, "j": 0, "op": "ann_start"},
+                         {"t": 0, "j": 1, "op": "rx", "src": "a1", "mc": False, "sid": 1, "rb": True, "uc": True, "es": [dict(sub)]},
+                         dict(stop, t=t_stop, j=0)]
+                out.append(_fam(sched, v, "client_unsubscribed raises while the instance is stopped (%s at t=%d)" % (kind, t_stop), t_extra=14))
+    return out
+
+
 def run(seed, count, length, insts, variants, monitor_cfg_extra=None, **kw):
     traces = []
     for n in range(count):
